@@ -91,6 +91,8 @@ struct Inner {
     replay_pos: usize,
     prio: Vec<i64>,
     change_points: Vec<u64>,
+    /// (thread, until step): not picked while others can run
+    stall: Option<(usize, u64)>,
     decisions: Vec<u8>,
     step: u64,
     /// events other than interning points
@@ -125,6 +127,7 @@ impl Inner {
             replay_pos: 0,
             prio: Vec::new(),
             change_points: Vec::new(),
+            stall: None,
             decisions: Vec::new(),
             step: 0,
             xstep: 0,
@@ -172,18 +175,41 @@ impl Inner {
     }
     /// choose the next thread among the runnable ones
     fn pick(&mut self, me: usize, kind: u8) -> Option<usize> {
-        let r = self.runnable();
+        let mut r = self.runnable();
         if r.is_empty() {
             return None;
         }
+        let n_all = r.len();
+        // a thread preempted between two instructions stays parked for a while (a stall inside
+        // an operation: the others get to do whole operations, not one step, before it goes on)
+        if self.replay.is_none() {
+            if let Some((t, until)) = self.stall {
+                if self.step < until && r.len() > 1 && r.contains(&t) && !(kind == K_FINE && t == me) {
+                    r.retain(|&x| x != t);
+                } else if self.step >= until {
+                    self.stall = None;
+                }
+            }
+        }
         if r.len() == 1 {
+            if n_all > 1 {
+                // a decision all the same (a replay, which does not stall, must find it in its list)
+                self.decisions.push(r[0] as u8);
+                crumb_push(r[0] as u8);
+            }
             return Some(r[0]);
         }
         let me_runnable = r.contains(&me);
         let choice = if self.replay.is_none() && kind == K_FINE {
             // an instruction-level preemption that does not switch threads would be wasted
             let others: Vec<usize> = r.iter().copied().filter(|&t| t != me).collect();
-            if others.is_empty() { me } else { others[self.rng.below(others.len() as u64) as usize] }
+            if others.is_empty() {
+                me
+            } else {
+                let bits = self.rng.below(11);
+                self.stall = Some((me, self.step + (1u64 << bits) + self.rng.below(1u64 << bits)));
+                others[self.rng.below(others.len() as u64) as usize]
+            }
         } else if let Some(rep) = &self.replay {
             let c = rep.get(self.replay_pos).map(|&x| x as usize);
             self.replay_pos += 1;
@@ -396,30 +422,35 @@ fn point_kind(site: &'static str, kind: u8) {
         let hit = {
             let a = ANCHOR.lock().unwrap();
             match a.as_ref() {
-                Some((t, st, nth, k)) if *t == me && st == site => {
+                Some((t, st, nth, k, j)) if *t == me && st == site => {
                     let seen = ANCHOR_SEEN.fetch_add(1, SeqCst);
-                    if seen == *nth { Some(*k) } else { None }
+                    if seen == *nth { Some((*k, *j)) } else { None }
                 }
                 _ => None,
             }
         };
-        if let Some(k) = hit {
+        if let Some((k, j)) = hit {
             ANCHOR_ARMED.fetch_add(1, SeqCst);
             FINE_LEFT.with(|c| c.set(k));
+            FINE_ATOMIC_TARGET.with(|c| c.set(j));
+            FINE_ATOMIC_SEEN.with(|c| c.set(0));
+            FINE_PREV_ATOMIC.with(|c| c.set(false));
             FINE_ON.with(|c| c.set(true));
         }
     }
 }
 
-/// Anchored instruction-level window: (thread, site, n, k) - after the n-th visit of hook site
+/// Anchored instruction-level window: (thread, site, n, k, j) - after the n-th visit of hook site
 /// `site` by thread `thread`, that thread is single-stepped and preempted k instructions of code
-/// under test later. Hook sites are where shared state is touched (interning, registry lock,
+/// under test later (j = 0), or right after the j-th atomic read-modify-write instruction it
+/// executes (j > 0; k is then only the budget of steps). Hook sites are where shared state is touched (interning, registry lock,
 /// clone/drop of host values), so the instructions right behind them are where a check-then-act
 /// on an un-hooked primitive would sit.
-static ANCHOR: Mutex<Option<(usize, String, u64, u64)>> = Mutex::new(None);
+static ANCHOR: Mutex<Option<(usize, String, u64, u64, u64)>> = Mutex::new(None);
 static ANCHOR_SEEN: AtomicU64 = AtomicU64::new(0);
 pub static ANCHOR_ARMED: AtomicU64 = AtomicU64::new(0);
-pub fn set_anchor(a: Option<(usize, String, u64, u64)>) {
+pub static ANCHOR_FIRED_ATOMIC: AtomicU64 = AtomicU64::new(0);
+pub fn set_anchor(a: Option<(usize, String, u64, u64, u64)>) {
     *ANCHOR.lock().unwrap() = a;
     ANCHOR_SEEN.store(0, SeqCst);
 }
@@ -652,6 +683,31 @@ pub fn decisions_so_far() -> (Vec<u8>, u64) {
 use crate::alloc::FINE_ON;
 thread_local! {
     static FINE_LEFT: Cell<u64> = const { Cell::new(0) };
+    /// atomic mode: preempt right after the j-th atomic read-modify-write instruction (0 = off)
+    static FINE_ATOMIC_TARGET: Cell<u64> = const { Cell::new(0) };
+    static FINE_ATOMIC_SEEN: Cell<u64> = const { Cell::new(0) };
+    static FINE_PREV_ATOMIC: Cell<bool> = const { Cell::new(false) };
+}
+
+/// Is the instruction at `rip` an atomic read-modify-write (`lock` prefix, or `xchg` with a
+/// memory operand)? Those are the instructions un-hooked synchronisation is made of: a
+/// preemption right behind one lands exactly between "lock released" and whatever comes next.
+#[cfg(target_arch = "x86_64")]
+fn is_atomic_at(rip: usize) -> bool {
+    // SAFETY: reads a few bytes of the code the thread is about to execute
+    let b = |i: usize| unsafe { std::ptr::read_volatile((rip + i) as *const u8) };
+    let mut i = 0;
+    while i < 4 {
+        match b(i) {
+            0xF0 => return true,
+            0x66 | 0x67 | 0x2E | 0x36 | 0x3E | 0x26 | 0x64 | 0x65 | 0xF2 | 0xF3 => i += 1,
+            _ => break,
+        }
+    }
+    if (0x40..=0x4F).contains(&b(i)) {
+        i += 1;
+    }
+    matches!(b(i), 0x86 | 0x87) && (b(i + 1) >> 6) != 3
 }
 pub static FINE_FIRED: AtomicU64 = AtomicU64::new(0);
 pub static FINE_STEPS: AtomicU64 = AtomicU64::new(0);
@@ -678,6 +734,32 @@ extern "C" fn trap_handler(_sig: libc::c_int, _info: *mut libc::siginfo_t, uctx:
         c.set(v);
         v
     });
+    let target = FINE_ATOMIC_TARGET.with(|c| c.get());
+    if target > 0 {
+        // atomic mode: `left` is only the budget of steps
+        let mut fire = false;
+        if FINE_PREV_ATOMIC.with(|c| c.get()) {
+            let seen = FINE_ATOMIC_SEEN.with(|c| {
+                c.set(c.get() + 1);
+                c.get()
+            });
+            fire = seen == target;
+        }
+        FINE_PREV_ATOMIC.with(|c| c.set(is_atomic_at(uc.uc_mcontext.gregs[libc::REG_RIP as usize] as usize)));
+        if fire {
+            ANCHOR_FIRED_ATOMIC.fetch_add(1, Relaxed);
+            FINE_ATOMIC_TARGET.with(|c| c.set(0));
+            FINE_ON.with(|c| c.set(false));
+            uc.uc_mcontext.gregs[libc::REG_EFL as usize] &= !TF;
+            FINE_FIRED.fetch_add(1, Relaxed);
+            point_kind("fine-preempt", K_FINE);
+        } else if left == 0 {
+            FINE_ATOMIC_TARGET.with(|c| c.set(0));
+            FINE_ON.with(|c| c.set(false));
+            uc.uc_mcontext.gregs[libc::REG_EFL as usize] &= !TF;
+        }
+        return;
+    }
     if left == 0 {
         FINE_ON.with(|c| c.set(false));
         uc.uc_mcontext.gregs[libc::REG_EFL as usize] &= !TF;
